@@ -308,6 +308,8 @@ pub fn run_c15_case(p: &Program, cfg: &Config) -> CaseReport {
         match &r.status {
             LoomStatus::Completed => {}
             LoomStatus::Capped => break,
+            // (a program that yields: the unbounded run is no yardstick for failures either)
+            LoomStatus::Failed { .. } if yields => break,
             LoomStatus::Failed { class, msg } => {
                 rep.violations.push(viol("bound", format!("preemption_bound = {}: the bounded run failed with {:?} ({}) although the unbounded run completes", n, class, msg.lines().next().unwrap_or("")), json!({"bound": n})));
                 break;
